@@ -185,6 +185,12 @@ func (g *VCGen) run() {
 	// a cut-point clause that attaches to no site (no such call left, or its variables are nowhere in scope) checks
 	// nothing: the code no longer has the shape the contract speaks about
 	if g.fc != nil {
+		for k, cl := range g.fc.AtReturn {
+			if !g.beforeApplied[fmt.Sprintf("atreturn.%d", k)] {
+				g.obls = append(g.obls, Obligation{Name: fmt.Sprintf("atreturn.%d.unattached", k), Kind: "ensures", Guard: "true", Goal: "false", NAssert: 0,
+					Pos: fn.Prog.Fset.Position(fn.Pos()), Text: "the clause 'atreturn " + cl.Text + "' applies at no return of the function", Func: fn.String()})
+			}
+		}
 		var names []string
 		for name := range g.fc.Before {
 			names = append(names, name)
@@ -1642,6 +1648,39 @@ func (g *VCGen) ret(x *ssa.Return) {
 			Pos: g.fn.Prog.Fset.Position(x.Pos()), Text: "this return is reachable (must be sat)", Func: g.fn.String()})
 	}
 	g.checkExit(results, x.Pos(), fmt.Sprintf("ret%d", g.retCount))
+	// "atreturn E": like ensures, with the local variables in scope at this return (clauses naming variables that
+	// are not in scope here do not apply; a clause that applies at no return fails, see run())
+	if g.fc != nil && len(g.fc.AtReturn) > 0 {
+		env := g.ownEnv(g.cur)
+		env.results = results
+		sig := g.fn.Signature
+		for i := 0; i < sig.Results().Len(); i++ {
+			env.resNames = append(env.resNames, sig.Results().At(i).Name())
+		}
+		env.locals = g.localsAtInstr(x.Block(), x, nil)
+		for k, cl := range g.fc.AtReturn {
+			goal, ok := func() (s string, ok bool) {
+				defer func() {
+					if r := recover(); r != nil {
+						if se, isSE := r.(specErr); isSE && strings.Contains(string(se), "unknown identifier") {
+							ok = false
+							return
+						}
+						panic(r)
+					}
+				}()
+				return g.trGoal(env, cl), true
+			}()
+			if !ok {
+				continue
+			}
+			if g.beforeApplied == nil {
+				g.beforeApplied = map[string]bool{}
+			}
+			g.beforeApplied[fmt.Sprintf("atreturn.%d", k)] = true
+			g.oblige(fmt.Sprintf("atreturn.%d@ret%d", k, g.retCount), "ensures", goal, "atreturn: "+cl.Text, x.Pos())
+		}
+	}
 }
 
 func (g *VCGen) checkExit(results []SpecVal, pos token.Pos, tag string) {
